@@ -578,3 +578,37 @@ def install():
     _installed["done"] = True
     _installed["report"] = report
     return report
+
+
+# ---------------------------------------------------------------------------------------------------------------------
+# The simulated clock (base.time.Time): installed only by the checks that observe it (every Time operation is hot)
+# ---------------------------------------------------------------------------------------------------------------------
+
+_time_seam = {"done": False}
+
+
+def install_time_seam():
+    if _time_seam["done"]:
+        return
+    from jellyfysh.base.time import Time
+    for name in ("__add__", "__sub__", "__lt__", "__le__", "__gt__", "__ge__", "__eq__"):
+        original = Time.__dict__[name]
+
+        def make(original, name):
+            @functools.wraps(original)
+            def wrapper(self, other):
+                result = original(self, other)
+                for h in HUB.h_on_time_op:
+                    h(name, self, other, result)
+                return result
+            return wrapper
+        setattr(Time, name, make(original, name))
+    original_from_float = Time.__dict__["from_float"].__func__
+
+    def from_float(time):
+        result = original_from_float(time)
+        for h in HUB.h_on_time_op:
+            h("from_float", None, time, result)
+        return result
+    Time.from_float = staticmethod(from_float)
+    _time_seam["done"] = True
